@@ -33,8 +33,11 @@ import time
 
 VERIF = os.path.dirname(os.path.abspath(__file__))
 REPO = os.environ.get("HPKE_REPO", "/repo")
-CRATE = os.path.join(VERIF, "kani", "hv")
-BUILD = os.path.join(VERIF, ".build")
+CRATE_SRC = os.path.join(VERIF, "kani", "hv")
+BUILD = os.environ.get("VERIF_BUILD_DIR", os.path.join(VERIF, ".build"))
+# the harness crate is snapshotted into the build dir before every run, so that editing
+# /verif/kani/hv while a check is running cannot change what that check verifies
+CRATE = os.path.join(BUILD, "crate", "hv")
 TARGET = os.path.join(BUILD, "hv")
 OUT = os.path.join(BUILD, "out")
 EVID = os.path.join(VERIF, "evidence")
@@ -72,7 +75,7 @@ def log(*a):
 # ------------------------------------------------------------------------------------------
 def load_registry():
     reg = {}
-    srcdir = os.path.join(CRATE, "src")
+    srcdir = os.path.join(CRATE_SRC, "src")
     for fn in sorted(os.listdir(srcdir)):
         if not fn.endswith(".rs"):
             continue
@@ -106,11 +109,13 @@ def limits():
 def build():
     """(Re)generate the goto programs from the current /repo tree. Returns (ok, seconds, log)."""
     os.makedirs(OUT, exist_ok=True)
-    # the harness crate pins the dependency versions of /repo
-    lock_src = os.path.join(REPO, "Cargo.lock")
-    lock_dst = os.path.join(CRATE, "Cargo.lock")
-    if not os.path.exists(lock_dst):
-        shutil.copy(lock_src, lock_dst)
+    os.makedirs(CRATE, exist_ok=True)
+    subprocess.run(["rsync", "-a", "--delete", "--exclude", "target", CRATE_SRC + "/", CRATE + "/"], check=True)
+    # the path dependency on the repository under test
+    ct = os.path.join(CRATE, "Cargo.toml")
+    if REPO != "/repo":
+        txt = open(ct).read().replace('path = "/repo"', 'path = "%s"' % REPO)
+        open(ct, "w").write(txt)
     t0 = time.time()
     p = subprocess.run(
         ["cargo", "kani", "--target-dir", TARGET] + BASE_ARGS + ["--only-codegen"],
@@ -404,6 +409,13 @@ def main():
         shutil.rmtree(os.path.join(CRATE, "target"), ignore_errors=True)
         return 0
 
+    if args.prop == "setup":
+        ok, t, out = build()
+        log(f"setup: harness crate {'built' if ok else 'FAILED to build'} in {t:.0f} s")
+        if not ok:
+            log(out[-4000:])
+        return 0 if ok else 2
+
     if args.replay:
         ok, t, out = build()
         r = run_case(args.replay)
@@ -413,52 +425,69 @@ def main():
         log("replay: the counterexample does NOT reproduce" if r is False else "replay: could not run")
         return 0 if r is False else 2
 
-    prop = args.prop.upper()
-    if prop in SPECIAL:
-        return SPECIAL[prop](args, seed)
+    props_req = [x.strip().upper() for x in args.prop.split(",") if x.strip()]
+    if len(props_req) == 1 and props_req[0] in SPECIAL:
+        return SPECIAL[props_req[0]](args, seed)
 
     t_start = time.time()
     reg = load_registry()
+    if props_req == ["ALL"]:
+        props_req = sorted({h["prop"] for h in reg.values()} | {p for h in reg.values() for p in h.get("also", "").split(",") if p})
     tiers = ["quick"] if args.tier == "quick" else ["quick", "thorough"]
-    hs = [h for h in reg.values() if h["prop"] == prop and h["tier"] in tiers]
-    if args.only:
-        hs = [h for h in hs if args.only in h["name"]]
-    if not hs:
-        log(f"no harnesses registered for {prop}")
+    per_prop = {}
+    allhs = {}
+    for prop in props_req:
+        hs = [h for h in reg.values() if (h["prop"] == prop or prop in h.get("also", "").split(",")) and h["tier"] in tiers]
+        if args.only:
+            hs = [h for h in hs if args.only in h["name"]]
+        per_prop[prop] = hs
+        for h in hs:
+            allhs[h["name"]] = h
+    label = ",".join(props_req)
+    if not allhs:
+        log(f"no harnesses registered for {label}")
         return 2
-    # longest first
-    hs.sort(key=lambda h: -int(h["timeout"]))
+    order = sorted(allhs.values(), key=lambda h: -int(h["timeout"]))
     if seed:
         import random
 
-        random.Random(seed).shuffle(hs)
+        random.Random(seed).shuffle(order)
 
-    log(f"[{prop}] building harness crate against {REPO} ({repo_state()}) ...")
+    log(f"[{label}] building harness crate against {REPO} ({repo_state()}) ...")
     ok, tb, out = build()
     if not ok:
         log(out[-6000:])
-        log(f"[{prop}] NOT DECIDED: harness crate does not build against the current tree")
-        write_evidence(prop, args.tier, seed, "model_checking",
-                       {"evaluations": 1, "distinct_nontrivial": 0, "rule": "build failed", "samples": ["build failure"],
-                        "explanation": "the harness crate did not compile against the current /repo tree; nothing was decided"},
-                       [], time.time() - t_start, 0)
+        log(f"[{label}] NOT DECIDED: harness crate does not build against the current tree")
+        for prop in props_req:
+            write_evidence(prop, args.tier, seed, "model_checking",
+                           {"evaluations": 1, "distinct_nontrivial": 0, "rule": "build failed", "samples": ["build failure"],
+                            "explanation": "the harness crate did not compile against the current /repo tree; nothing was decided"},
+                           [], time.time() - t_start, 0)
         return 2
-    log(f"[{prop}] build ok in {tb:.0f} s; running {len(hs)} harnesses, {args.jobs} at a time")
+    log(f"[{label}] build ok in {tb:.0f} s; running {len(order)} harnesses, {args.jobs} at a time")
 
     results = {}
     with cf.ThreadPoolExecutor(max_workers=args.jobs) as ex:
-        futs = {ex.submit(run_harness, h): h for h in hs}
+        futs = {ex.submit(run_harness, h): h for h in order}
         for fu in cf.as_completed(futs):
             h = futs[fu]
             r = fu.result()
             results[h["name"]] = r
             s = r["stats"]
             log(
-                f"[{prop}] {r['status']:9s} {h['name']:44s} {r['wall_s']:7.1f}s checks={r['n_checks']} "
+                f"[{h['prop']}] {r['status']:9s} {h['name']:44s} {r['wall_s']:7.1f}s checks={r['n_checks']} "
                 f"covers={r['covers']['satisfied']}/{r['covers']['total']} symex={s.get('runtime_symex_s', 0):.0f}s "
                 f"solver={s.get('runtime_solver_s', 0):.0f}s " + (r.get("reason", "") if r["status"] not in ("pass",) else "")
             )
+    rc = 0
+    for prop in props_req:
+        if not per_prop[prop]:
+            continue
+        rc = max(rc, conclude(prop, per_prop[prop], results, args, seed, tb, t_start), key=lambda x: {0: 0, 2: 1, 1: 2}[x])
+    return rc
 
+
+def conclude(prop, hs, results, args, seed, tb, t_start):
     fixed, known = load_known()
     violations = []
     known_hits = []
